@@ -224,27 +224,23 @@ def rand_alignment(rng, kind, motifs, tree, ncols, ambig_rate=0.12, gap_rate=0.0
         col = {}
         stay = rng.choice([0.5, 0.8, 0.95])
 
-        def go(n, state):
+        def go(n, state, pool):
             for c in n["children"]:
                 # no substitution across an edge shorter than 1e-5 (incl. the tiny 1e-6..1e-12 ones): a column that
                 # needs one has a likelihood at the rounding floor of the float64 matrix exponential, where
                 # neither lnL nor its invariances are numerically meaningful
                 short = c["len"] is not None and c["len"] < 1e-5
-                s = state if short or rng.random() < stay else rng.choice(motifs)
+                s = state if short or rng.random() < stay else rng.choice(pool)
                 if c["children"]:
-                    go(c, s)
+                    go(c, s, pool)
                 else:
                     col[c["name"]] = s
 
-        pick = rng.choice
+        pool = motifs
         if kind == "codon" and rng.random() < 0.4:
             # columns built from the codons whose amino acid depends on the genetic code
-            special = [m for m in GC_SENSITIVE if m in motifs]
-            motifs_, motifs = motifs, special or motifs
-            go(tree, rng.choice(motifs))
-            motifs = motifs_
-        else:
-            go(tree, rng.choice(motifs))
+            pool = [m for m in GC_SENSITIVE if m in motifs] or motifs
+        go(tree, rng.choice(pool), pool)
         for t in tips:
             r = rng.random()
             if r < gap_rate and not gaps:
